@@ -1250,14 +1250,16 @@ func (r *RangeEntry) CheckValue(v val.Value) error {
 			return errNotExpectedValue
 		}
 	}
-	if !r.Min.Empty() {
+	// "min" as lower bound and "max" as upper bound leave that side open: the
+	// restrictions of the base type are checked on their own
+	if !r.Min.Empty() && !r.Min.isMin {
 		if cmp, err := r.Min.Compare(v); err != nil {
 			return err
 		} else if cmp > 0 {
 			return errOutsideRange
 		}
 	}
-	if !r.Max.Empty() {
+	if !r.Max.Empty() && !r.Max.isMax {
 		if cmp, err := r.Max.Compare(v); err != nil {
 			return err
 		} else if cmp < 0 {
@@ -1340,7 +1342,12 @@ func (n RangeNumber) getFloat64() float64 {
 	panic("invalid number range comparison")
 }
 
+var errRangeKeyword = errors.New("min or max keyword has no number to compare with")
+
 func (n RangeNumber) Compare(v val.Value) (int64, error) {
+	if n.isMin || n.isMax {
+		return 0, errRangeKeyword
+	}
 	if v.Format().IsList() {
 		var cmp0 int64
 		var err0 error
